@@ -508,18 +508,59 @@ def read(repo):
     # ---- routines/spe.hpp: the divisor of the annealing step is the bound of the loop it sits in
     div, bound = spe_anneal(repo, INC)
     F["f_spe_anneal_div_is_bound"] = (div == bound)
+    # ---- routines/landmarks.hpp triangulate(): what is returned, and the scatter that restores sample order
+    rets, scatter = triangulate_rows(repo, INC)
+    F["f_tri_returns"] = ("strs", rets)
+    F["f_tri_scatter"] = scatter
     return F
+
+
+def triangulate_rows(repo, inc="include/tapkee"):
+    """landmarks.hpp triangulate(): (1) the expression of every `return` statement (whitespace removed, in source order,
+    duplicates kept out); (2) is there a loop `for (J = 0; J < n_landmarks; ..)` whose body copies landmark row J to
+    row landmarks[J] of the matrix `embedding`: `embedding.row(landmarks[J]) = landmarks_embedding.first.row(J)`"""
+    try:
+        raw = open(os.path.join(repo, inc, "routines/landmarks.hpp")).read()
+    except OSError as ex:
+        fail("cannot read routines/landmarks.hpp: %s" % ex)
+    s = blank_comments_strings(raw)
+    body, _ = function_body(s, r"\bDenseMatrix\s+triangulate\s*\(", "triangulate")
+    rets = []
+    for m in re.finditer(r"\breturn\b([^;]*);", body):
+        e = re.sub(r"\s+", "", m.group(1))
+        if e not in rets:
+            rets.append(e)
+    if not rets:
+        fail("landmarks.hpp triangulate(): no return statement found")
+    scatter = False
+    for f in re.finditer(r"\bfor\s*\(", body):
+        q = match_close4(body, f.end() - 1, "(", ")")
+        head = body[f.end():q].split(";")
+        if len(head) != 3:
+            continue
+        mi = re.match(r"\s*(?:[\w:]+\s+)?(\w+)\s*=\s*0\s*$", head[0])
+        if not mi:
+            continue
+        J = mi.group(1)
+        if not re.match(r"\s*%s\s*<\s*n_landmarks\s*$" % J, head[1]):
+            continue
+        e = statement_end(body, q + 1)
+        blk = body[q + 1:e]
+        if re.search(r"\bembedding\s*\.\s*row\s*\(\s*landmarks\s*\[\s*%s\s*\]\s*\)\s*(?:\.\s*noalias\s*\(\s*\))?\s*=\s*"
+                     r"landmarks_embedding\s*\.\s*first\s*\.\s*row\s*\(\s*%s\s*\)\s*;" % (J, J), blk):
+            scatter = True
+    return rets, scatter
 
 
 ORDER = ["f_spe_clamp", "f_spe_ind2", "f_spe_sel", "f_spe_nbsize", "f_spe_nbwrite", "f_spe_rscale", "f_spe_roff",
          "f_spe_bufs", "f_spe_indices", "f_nb_clamp", "f_nb_retry_reclamps", "f_ltsa_cols", "f_hlle_dp",
          "f_hlle_cols", "f_hlle_ct", "f_tsne_kfactor", "f_tsne_rowp", "f_tsne_colp", "f_tsne_curp",
-         "f_omp_throws", "f_omp_orphans", "f_recursive", "f_spe_anneal_div_is_bound"]
+         "f_omp_throws", "f_omp_orphans", "f_recursive", "f_spe_anneal_div_is_bound", "f_tri_returns", "f_tri_scatter"]
 
 
 def emit(F):
     L = ["(* GENERATED by translate/t_shapes.py from routines/spe.hpp, neighbors/neighbors.hpp,",
-         "   routines/locally_linear.hpp, external/barnes_hut_sne/tsne.hpp and (OpenMP scan) every header -- do not edit.",
+         "   routines/locally_linear.hpp, external/barnes_hut_sne/tsne.hpp, routines/landmarks.hpp and (OpenMP scan) every header -- do not edit.",
          "   Table of property C01: see Shapes_Src.v for the meaning of each field. *)",
          "From Coq Require Import ZArith List String.",
          "From TK Require Import Shapes_Src.",
@@ -536,6 +577,8 @@ def emit(F):
             rows.append("     %s := %s" % (k, "true" if v else "false"))
         elif isinstance(v, tuple) and v and v[0] == "pairs":
             rows.append("     %s := [%s]" % (k, "; ".join('("%s"%%string, "%s"%%string)' % (f.replace('"', ""), n) for f, n in v[1])))
+        elif isinstance(v, tuple) and v and v[0] == "strs":
+            rows.append("     %s := [%s]" % (k, "; ".join('"%s"%%string' % x.replace('"', "") for x in v[1])))
         elif isinstance(v, tuple) and v and v[0] == "sites":
             rows.append("     %s := [%s]" % (k, "; ".join('("%s"%%string, %d)' % (f.replace('"', ""), ln) for f, ln in v[1])))
         elif isinstance(v, int):
@@ -561,7 +604,7 @@ def emit(F):
 def translate(repo):
     try:
         F = read(repo)
-        return emit(F), {k: (v if isinstance(v, (bool, int)) else [list(x) for x in v[1]] if v[0] in ("sites", "pairs") else show_sx(v))
+        return emit(F), {k: (v if isinstance(v, (bool, int)) else [list(x) for x in v[1]] if v[0] in ("sites", "pairs") else list(v[1]) if v[0] == "strs" else show_sx(v))
                          for k, v in F.items()}
     except TranslateError:
         raise
@@ -598,6 +641,14 @@ SELF_TEST = [
     ("routines/spe.hpp", "for (IndexType i = 0; i < max_iter; ++i)", "const IndexType iterations = max_iter;\n    for (IndexType i = 0; i < iterations; ++i)", True),
     ("neighbors/connected.hpp", "inline bool all_reachable_from_first(int N, const Neighbors& adjacency)\n{",
      "inline int count_from(int v, const Neighbors& a, std::vector<bool>& seen)\n{\n    int n = 1;\n    seen[v] = true;\n    for (const int w : a[v])\n        if (!seen[w])\n            n += count_from(w, a, seen);\n    return n;\n}\n\ninline bool all_reachable_from_first(int N, const Neighbors& adjacency)\n{", True),
+    # wave 4: triangulate() returns something else than the scattered matrix; the scatter writes row J instead of
+    # row landmarks[J]; the loop variable renamed / `.noalias()` dropped (harmless)
+    ("routines/landmarks.hpp", "    std::vector<bool> to_process(n_vectors, true);\n",
+     "    if (n_landmarks == n_vectors)\n        return landmarks_embedding.first;\n    std::vector<bool> to_process(n_vectors, true);\n", True),
+    ("routines/landmarks.hpp", "embedding.row(landmarks[index_iter]).noalias() = landmarks_embedding.first.row(index_iter);",
+     "embedding.row(index_iter).noalias() = landmarks_embedding.first.row(index_iter);", True),
+    ("routines/landmarks.hpp", "    for (IndexType index_iter = 0; index_iter < n_landmarks; ++index_iter)\n    {\n        to_process[landmarks[index_iter]] = false;\n        embedding.row(landmarks[index_iter]).noalias() = landmarks_embedding.first.row(index_iter);",
+     "    for (IndexType l = 0; l < n_landmarks; l++)\n    {\n        to_process[landmarks[l]] = false;\n        embedding.row(landmarks[l]) = landmarks_embedding.first.row(l);", False),
 ]
 
 
@@ -636,7 +687,7 @@ def main():
     ap.add_argument("--self-test", action="store_true")
     a = ap.parse_args()
     if a.self_test:
-        n, bad = self_test(a.repo, "/tmp/c01c_t_shapes_selftest")
+        n, bad = self_test(a.repo, "/tmp/c01d_t_shapes_selftest")
         print("t_shapes self-test: %d mutations, %d failures" % (n, len(bad)))
         for b in bad:
             print("  " + b)
